@@ -535,9 +535,22 @@ def _workload(tier, rng, shard, nshards):
                 b = [(i * 1.0, i * 1.0 + (e[1] - e[0]), "x") for i, e in enumerate(b)]
         else:
             b = gen.rand_interval_entries(rng, 5, 5.0, labels=["x", "y"], src=src)
+        if len(a) >= 2 and rng.random() < 0.2:
+            # the target's durations are the source's own, handed round (swapped, rotated): every interval changes, the total does not
+            durs = [e[1] - e[0] for e in a]
+            if rng.random() < 0.6:
+                j_ = rng.randrange(len(durs) - 1)
+                durs[j_], durs[j_ + 1] = durs[j_ + 1], durs[j_]  # (d2 - d1) + (d1 - d2) is exactly 0 in floats, too
+            else:
+                durs = durs[1:] + durs[:1] if rng.random() < 0.5 else durs[::-1]
+            pos, b = 0.0, []
+            for d_ in durs:
+                b.append((pos, pos + d_, "x"))
+                pos += d_ + 0.25
+            REC.cls("C14:morph:durations-permuted-total-unchanged")
         lo, hi = gen.span_for(rng, a, 5.0, "I")
         A = make_tier("I", "A", a, lo, hi)
-        B = make_tier("I", "B", b, 0.0, max(5.0, len(b) + 1.0))
+        B = make_tier("I", "B", b, 0.0, max(5.0, len(b) + 1.0, (b[-1][1] if b else 0.0)))
         # filter functions need not return a bool: a regular-expression match object, a count, the label itself are common
         filt = rng.choice([None, None, lambda lab: lab in ("a", "b"), lambda lab: lab == "c", lambda lab: False,
                            _re_ab.search, lambda lab: lab.count("a") + lab.count("c"), lambda lab: lab if lab != "b" else "", lambda lab: [lab] if lab == "a" else []])
